@@ -30,6 +30,12 @@ Inductive case :=
 | DownReq (pa_ok : bool) (h : headers) (body : option bytes) (trailers : option headers) (impl : outcome)
 (* real h2 server -> HttpLayer -> Http1Server: the bytes written to the HTTP/1 client *)
 | DownResp (req_method : bytes) (h : headers) (body : option bytes) (trailers : option headers) (impl : outcome)
+(* the same request object emitted twice (second pass = client replay): both header lists as decoded by real h2 peers /
+   returned by two calls, and the fields of the live request after the first emission *)
+| EmitTwice (normalize is_h2 : bool) (method scheme authority path : bytes) (fields : headers)
+            (impl_first impl_second impl_fields_after : headers)
+(* Http1Client.send conversion: fields of the live HTTP/2 request after it was written as HTTP/1 *)
+| EmitH1State (fields impl_fields_after : headers)
 | Both (a b : case).
 
 Fixpoint check_case (c : case) : bool :=
@@ -51,5 +57,10 @@ Fixpoint check_case (c : case) : bool :=
   | ValHdr h ok => match validate_headers h with VOk => ok | VReject => negb ok | VTe => false end
   | DownReq pa h body tr impl => outcome_eqb (down_request (fun _ => pa) h body tr) impl
   | DownResp m h body tr impl => outcome_eqb (down_response m h body tr) impl
+  | EmitTwice n v m s a p f i1 i2 fa =>
+      let (e1, st1) := emit_request n v m s a p f in
+      let (e2, _) := emit_request n v m s a p st1 in
+      headers_eqb e1 i1 && headers_eqb e2 i2 && headers_eqb st1 fa
+  | EmitH1State f fa => headers_eqb (snd (emit_h1_request (mkH2Req [] [] [] [] f))) fa
   | Both a b => check_case a && check_case b
   end.
